@@ -2,7 +2,7 @@
    sumbool/sumor map to OCaml's; nat/N/positive stay Coq's inductives.  No Extract
    Constant / Extract Inductive directives of our own. *)
 From Coq Require Import ExtrOcamlBasic.
-From EB Require Import Base ListVec Diff Head Skip Tail Filter Sort PollLoop OVec Obs ObsSpec Chain ObsConc.
+From EB Require Import Base ListVec Diff Head Skip Tail Filter Sort PollLoop OVec Obs ObsSpec Chain ObsConc AsyncLock.
 Extraction Language OCaml.
 Extraction "model.ml"
   Diff.dmap Diff.apply Diff.ok_in Diff.apply_all Diff.apply_all_ok Diff.spec_nth Diff.oob
@@ -16,4 +16,5 @@ Extraction "model.ml"
   OVec.subscribe OVec.drop_sub OVec.poll_sub OVec.drop_vec OVec.for_each OVec.cur_values OVec.rx_cnt
   Obs.obs_new Obs.step ObsSpec.s_new ObsSpec.sstep
   Chain.head_into_parts Chain.tail_into_parts Chain.skip_into_parts
-  ObsConc.cstep ObsConc.release ObsConc.is_done.
+  ObsConc.cstep ObsConc.release ObsConc.is_done
+  AsyncLock.astep AsyncLock.async_subscriber_double_count AsyncLock.sem_new AsyncLock.sem_acquire AsyncLock.sem_release.
